@@ -87,6 +87,27 @@ func (v *FnVC) specTerm(e Expr, env *Env, cl *Clause) Term {
 	case *Ident:
 		return v.specIdent(x.Name, env, cl)
 	case *Unary:
+		if x.Op == "&" {
+			// address of a struct embedded by value: &p.f
+			sel, ok := x.X.(*SelE)
+			if !ok {
+				v.specFail(cl, "& needs a field selector")
+			}
+			base := v.specTerm(sel.X, env, cl)
+			st, sname, ok := derefStruct(base.T)
+			if !ok {
+				v.specFail(cl, "& needs a field of a struct pointer")
+			}
+			for i := 0; i < st.NumFields(); i++ {
+				if st.Field(i).Name() == sel.Name {
+					if _, isStruct := st.Field(i).Type().Underlying().(*types.Struct); !isStruct {
+						v.specFail(cl, "&x.f is supported for struct-typed fields only")
+					}
+					return Term{v.subRef(base.S, sname, st, i), types.NewPointer(st.Field(i).Type())}
+				}
+			}
+			v.specFail(cl, "no field %s", sel.Name)
+		}
 		a := v.specTerm(x.X, env, cl)
 		switch x.Op {
 		case "!":
